@@ -176,4 +176,59 @@ example : MFHistOK [3, 2] ([], []) [.emp [(0, 1)] 10, .emp [(1, 0)] 11, .rbd [20
   simp [MFHistOK, MFOpOK, mspecStep, specInsert, ValidPF, KeysAsc]
 
 
+/-! ### FasterTrie histories in which keys may be empty, with the guard of fixes/C20-5 -/
+
+def FOp.keyEmpty : FOp → Bool
+  | .ins pf => pf.isEmpty
+  | .erp _ pf => pf.isEmpty
+
+/-- one call on the guarded FasterTrie: an empty-key `insert` throws (state unchanged), an empty-key `erase` returns -/
+def fstepG (st : Option FT) : FOp → Option FT
+  | .ins pf => st.bind (fun t => (t.insertG true pf).map (fun r => match r with | none => t | some x => x.1))
+  | .erp id pf => st.bind (fun t => t.eraseG true id pf)
+
+theorem fstepG_foldl (ops : List FOp) (st : Option FT) :
+    ops.foldl fstepG st = (ops.filter (fun op => !op.keyEmpty)).foldl fstep st := by
+  induction ops generalizing st with
+  | nil => rfl
+  | cons op ops ih =>
+    rw [List.foldl_cons, ih]
+    cases op with
+    | ins pf =>
+      cases pf with
+      | nil =>
+        have : fstepG st (.ins []) = st := by cases st <;> rfl
+        rw [this]; rfl
+      | cons kv r =>
+        have : fstepG st (.ins (kv :: r)) = fstep st (.ins (kv :: r)) := by
+          cases st with
+          | none => rfl
+          | some t => simp [fstepG, fstep, FT.insertG, Option.map_map, Function.comp_def]
+        rw [this]; rfl
+    | erp id pf =>
+      cases pf with
+      | nil =>
+        have : fstepG st (.erp id []) = st := by cases st <;> rfl
+        rw [this]; rfl
+      | cons kv r =>
+        have : fstepG st (.erp id (kv :: r)) = fstep st (.erp id (kv :: r)) := by cases st <;> rfl
+        rw [this]; rfl
+
+/-- **C20, FasterTrie with the empty-key guard**: for every history of insert / erase(id, key) in which keys may also be *empty*, the guarded
+    FasterTrie never reaches undefined behaviour; the empty-key calls change nothing (insert is rejected), and all the statements of
+    `fastertrie_refines_spec` hold w.r.t. the entries of the other calls -/
+theorem fastertrie_guarded_refines_spec (F : List Nat) (ops : List FOp)
+    (hok : FHistOK F ([], 0) (ops.filter (fun op => !op.keyEmpty))) :
+    let stored := ((ops.filter (fun op => !op.keyEmpty)).foldl fspecStep ([], 0)).1
+    ∃ t, ops.foldl fstepG (some (FT.new F)) = some t ∧ RIF t stored ∧
+      (∀ f id, f.length ≤ F.length → (∀ j, j < f.length → f.getD j 0 < F.getD j 0) →
+        (id ∈ t.filter f ↔ id ∈ specFilter stored (prefixPF 0 f))) ∧
+      (∀ f, (t.filter f).Nodup) ∧ t.size = stored.length := by
+  obtain ⟨t, hr, hRI, hmem, _, hnd, hsz⟩ := fastertrie_refines_spec F _ hok
+  exact ⟨t, by rw [fstepG_foldl]; exact hr, hRI, hmem, hnd, hsz⟩
+
+example : FHistOK [3, 2] ([], 0) (([.ins [(0, 1)], .ins [], .erp 0 [], .ins [(0, 2), (1, 0)], .erp 0 [(0, 1)]] : List FOp).filter (fun op => !op.keyEmpty)) := by
+  simp [FHistOK, FOpOK, fspecStep, specInsert, ValidPF, KeysAsc, FOp.keyEmpty]
+
+
 end AITB.Trie
